@@ -9,4 +9,12 @@ PROPS = {
         ],
         "assumptions": ["LIFETIME values are whole seconds 0..2^32-1 (float rounding of Duration.Seconds() not modelled)"],
     },
+    "C10": {
+        "pkgs": [("./internal/proto", "TestVerif_C10"), ("./internal/client", "TestVerif_C10")],
+        "trusted_base": [
+            "net.Conn.Read semantics (returns 1..len(p) bytes or an error) are an input of the model (the list of reads)",
+            "the caller's buffer is assumed large enough for a frame (the server drops frames >= InboundMTU after ReadFrom)",
+        ],
+        "assumptions": [],
+    },
 }
